@@ -135,7 +135,8 @@ namespace igris
 
         void load_history_line()
         {
-            _lastsize = _line.current_size();
+            // how far the screen cursor is from the start of the line
+            _lastsize = _line.current_size() - _line.rightsize();
 
             if (_curhist == 0)
             {
